@@ -98,7 +98,7 @@ package txtar
 // C15: Write creates files only at or below dir, never overwrites, reports an
 // error for names that are absolute or climb out, and on success every file
 // holds its entry's data. (fs model and path algebra: /verif/specs/fs.spec)
-//@ property C15: Write, isAbs, cmd/txtar-x/main, cmd/txtar-c/main$1
+//@ property C15: Write, isAbs, cmd/txtar-x/main, cmd/txtar-c/main$1, cmd/txtar-c/main
 //
 // the path Write creates for an entry name
 //@ pure func targetP(dir string, name string) string = joinP(dir, cleanP(name))
